@@ -12,7 +12,7 @@ pub struct C07;
 
 const TOL: f64 = 0.0051;
 
-fn mini_model(rng: &mut Rng, db: bemodel::ConsDb, wincons_ids: &[Uuid]) -> Model {
+fn mini_model(rng: &mut Rng, db: bemodel::ConsDb, wincons_ids: &[Uuid], unit_windows: bool) -> Model {
     let mut m = Model::default();
     let sid = uuid(rng);
     m.spaces.push(Space { id: sid, name: "s".into(), height: 3.0, ..Default::default() });
@@ -53,7 +53,9 @@ fn mini_model(rng: &mut Rng, db: bemodel::ConsDb, wincons_ids: &[Uuid]) -> Model
             cons: *c,
             wall: wid,
             // no position: obstruction factors are irrelevant here and are skipped by the library
-            geometry: WinGeom { position: None, height: 1.0, width: 1.0, setback: 0.0 },
+            // (1 m2 windows make the batch arithmetic easy; the single-window workload uses other sizes, where a factor that
+            // is missing or applied twice shows)
+            geometry: if unit_windows { WinGeom { position: None, height: 1.0, width: 1.0, setback: 0.0 } } else { WinGeom { position: None, height: rng.dec(0.4, 2.5, 2) as f32, width: rng.dec(0.4, 3.0, 2) as f32, setback: 0.0 } },
         });
     }
     m.cons = db;
@@ -149,7 +151,7 @@ impl C07 {
             ids.push(wc.id);
             db.wincons.push(wc);
         }
-        let model = mini_model(rng, db, &ids);
+        let model = mini_model(rng, db, &ids, true);
         let ind = match guard(|| model.energy_indicators()) {
             Ok(i) => i,
             Err(p) => {
@@ -285,7 +287,7 @@ impl C07 {
                 db.wincons[0].id
             }
         };
-        let model = mini_model(rng, db, &[cons_id]);
+        let model = mini_model(rng, db, &[cons_id], false);
         obs.eval();
         obs.nontrivial_str(&format!("single{}{}", mode, cons_id));
         let ind = match guard(|| model.energy_indicators()) {
